@@ -249,19 +249,37 @@ def files(chk, bib):
                 chk.mismatch("parse_file", {"kind": "file", "encoding": "default", "text": text}, "differs", "UTF-8 default", kind="file")
         # write_file
         lib = bib.parse_string(docs["utf-8"])
-        for variant in ("default", "stack", "prepend"):
+        M = bib.model
+
+        class Suffix(bib.middlewares.BlockMiddleware):
+            """edits VALUES, so that its position relative to the default write stack shows in the text"""
+            def __init__(self):
+                super().__init__(allow_inplace_modification=False)
+
+            def transform_entry(self, entry, library):
+                for f in entry.fields:
+                    if isinstance(f.value, str):
+                        f.value = f.value + "-1"
+                return entry
+        for variant in ("default", "stack", "prepend", "prepend-values", "ends-in-newlines"):
             kw_ws, kw_wf = {}, {}
             if variant == "stack":
                 kw_ws, kw_wf = {"unparse_stack": []}, {"parse_stack": []}
             elif variant == "prepend":
                 kw_ws = {"prepend_middleware": [bib.middlewares.SortFieldsAlphabeticallyMiddleware(allow_inplace_modification=False)]}
                 kw_wf = {"append_middleware": [bib.middlewares.SortFieldsAlphabeticallyMiddleware(allow_inplace_modification=False)]}
+            elif variant == "prepend-values":
+                kw_ws = {"prepend_middleware": [Suffix()]}
+                kw_wf = {"append_middleware": [Suffix()]}
             fmt = bib.BibtexFormat()
             fmt.indent = "  "
             try:
-                want = bib.write_string(lib, bibtex_format=fmt, **kw_ws) if variant != "stack" else bib.write_string(
-                    bib.parse_string(docs["utf-8"], parse_stack=[]), bibtex_format=fmt, **kw_ws)
                 src = lib if variant != "stack" else bib.parse_string(docs["utf-8"], parse_stack=[])
+                if variant == "ends-in-newlines":
+                    # a text that ends in several line breaks (and one that ends in none) is written as it is
+                    src = bib.Library([M.Entry("article", "k", [M.Field("a", "b")]), M.ImplicitComment("last words\n\n\n")])
+                    fmt.block_separator = "\n\n\n"
+                want = bib.write_string(src, bibtex_format=fmt, **kw_ws)
                 for target in ("path", "fileobj", "stringio"):
                     n += 1
                     p = os.path.join(d, f"out-{variant}-{target}.bib")
